@@ -1162,6 +1162,10 @@ class DesignSpace:
             out[..., norm_inds] -= self.__lower_bounds_array[norm_inds]
 
         if isinstance(out, sparse_classes):
+            if out.format != "csr":
+                # The indices of the other sparse formats are not column indices.
+                out = out.tocsr()
+
             # Construct a mask to only scale the required columns
             column_mask = isin(out.indices, norm_inds)
             # Scale the corresponding coefficients
@@ -1313,6 +1317,10 @@ class DesignSpace:
             out = out.astype(current_x_dtype, copy=False)
 
         if isinstance(out, sparse_classes):
+            if out.format != "csr":
+                # The indices of the other sparse formats are not column indices.
+                out = out.tocsr()
+
             # Construct a mask to only scale the required columns
             column_mask = isin(out.indices, norm_inds)
             # Scale the corresponding coefficients
